@@ -516,10 +516,10 @@ def small_shape_cases(rng, index, n_shards, draws=5, values=gen.DYADIC, out_mode
             rng.shuffle(cuts)
             inputs = {}
             for j, nm in enumerate(names):
-                h = cuts[j % len(cuts)] if d < draws - 1 else n
+                h = cuts[j % len(cuts)] if (d < 3 or d % 4 != 3) else n  # every fourth draw: full range
                 dens = 1.0 if d == 0 else 0.75
                 inputs[nm] = {(c,): rng.choice(values) for c in range(h) if rng.random() < dens}
-            if d == draws - 2 and names:
+            if d % 4 == 2 and names:
                 inputs[names[rng.randrange(len(names))]] = {}
             yield Case(gen.show_assignment(target, tree), fm, {"i": n}, inputs, rng.choice(gen.CAPACITIES), "small-shapes", target, tree)
 
@@ -559,3 +559,49 @@ def output_exhaustive_cases(rng, index, n_shards, draws=3, values=gen.DYADIC):
                             case.inputs[n] = {c: v for c, v in gen.random_entries(rng, dims[n], values, density=0.6).items()
                                               if not c or c[0] in keep}
                     yield case
+
+
+# --------------------------------------------------------------------------- medium sizes
+
+
+def medium_cases(rng, n, values=gen.DYADIC):
+    """Random-grammar and curated assignments at dimension sizes 6..19 (the other generators stay at
+    0..4 / 5..9) with thin inputs: anything that depends on a size threshold, on a coordinate needing
+    more than a few bits, or on a stride product larger than a handful is outside the small classes."""
+    import itertools
+
+    shapes = list(gen.CURATED)
+    for k in range(n):
+        if k % 2:
+            target, tree = gen.random_assignment(rng, allow_broadcast_target=False)
+        else:
+            target, tree = gen.parse(rng.choice(shapes))
+        n_idx = len(set(target[2]) | set(gen.indexes_of(tree)))
+        pool = [6, 9, 13, 17, 19] if n_idx <= 2 else ([6, 7, 11] if n_idx == 3 else [5, 6])
+        case = build_case(rng, target, tree, None, values, origin="medium-sizes", sizes_pool=pool)
+        dims = gen.tensor_dims(case.target, case.tree, case.sizes)
+        for name in case.inputs:
+            vol = 1
+            for d in dims[name]:
+                vol *= d
+            dens = min(0.5, 12.0 / max(vol, 1)) if rng.random() < 0.7 else min(1.0, 40.0 / max(vol, 1))
+            case.inputs[name] = {c: rng.choice(values) for c in itertools.product(*(range(d) for d in dims[name]))
+                                 if rng.random() < dens}
+        yield case
+
+
+# --------------------------------------------------------------------------- orders 4 and 5
+
+
+HIGH_ORDER_SHAPES = ["A(i,j,k,l) = B(i,j,k,l)", "A(i,j,k,l) = B(l,k,j,i)", "A(i,j,k,l) = B(i,j,k,l) + C(i,j,k,l)", "A(i,j,k,l) = B(i,j,k,l) * C(i,j,k,l)",
+                     "A(i,j) = B(i,j,k,l) * C(k,l)", "a(i) = B(i,j,k,l) * c(j) * d(k) * e(l)", "A(i,j,k,l) = b(i) * c(j) * d(k) * e(l)",
+                     "A(i,j,k,l) = B(i,j,k) * c(l)", "A(i,j,k,l,m) = B(i,j,k,l,m)", "A(i,j,k,l,m) = B(m,l,k,j,i) + C(i,j,k,l,m)",
+                     "A(i,j,k) = B(i,j,l,m) * C(l,m,k)", "a() = B(i,j,k,l) * C(i,j,k,l)"]
+
+
+def high_order_cases(rng, n, values=gen.DYADIC):
+    """Tensors of order 4 and 5 (random modes and mode orderings, sizes 1..3, thin inputs)."""
+    for _ in range(n):
+        target, tree = gen.parse(rng.choice(HIGH_ORDER_SHAPES))
+        case = build_case(rng, target, tree, None, values, origin="high-order", sizes_pool=[1, 2, 2, 3])
+        yield case
